@@ -226,8 +226,9 @@ def directed_scripts():
     for k, msgs in enumerate([[M(120)], [M(60), M(60)], [M(40), M(40), M(40)], [M(120), M(60), M(60)]]):
         for asyn in (False, True):
             out.append({"id": "D13-exactly-full-%d-%s" % (k, "a" if asyn else "s"), "cfg": dict(base, batchSize=10, batchBytes=120, nparts={"t": 1}, batchTimeoutMs=60000),
-                        "outcomes": {}, "steps": [{"op": "call", "c": 1, "g": 1, "msgs": msgs}, {"op": "waitcall", "c": 1}, {"op": "sleep", "ms": 300 if asyn else 10},
-                                                  {"op": "close"}, {"op": "waitclose"}]})
+                        "outcomes": {}, "steps": [{"op": "call", "c": 1, "g": 1, "msgs": msgs}] + ([{"op": "sleep", "ms": 300}, {"op": "close"}, {"op": "waitclose"}] if asyn else [])})
+            # (synchronous variant: no Close in the script -- the call must return by itself; the end of the script records a call
+            # that is still blocked when the watchdog expires)
             out[-1]["cfg"]["async"] = asyn
     # D14: BatchBytes left at its zero value means the default of 1 MiB: a larger message is rejected before anything of the call is sent
     out.append({"id": "D14-default-batchbytes", "cfg": dict(base, batchSize=10, batchBytes=0, nparts={"t": 1}, batchTimeoutMs=10), "outcomes": {}, "steps": [
